@@ -30,6 +30,8 @@ pub type TApp = App<
 pub const SUPPLY: &str = "<supply>";
 pub const VALIDATOR: &str = "valoper1";
 pub const DENOMS: [&str; 3] = ["x", "y", "TOKEN"];
+/// denominations whose total supply is observed
+pub const SUPPLY_DENOMS: [&str; 4] = ["x", "y", "TOKEN", "z"];
 
 #[derive(Clone, Debug)]
 pub struct StartState {
@@ -271,7 +273,7 @@ impl World {
             }
         }
         let mut supply = BTreeMap::new();
-        for d in DENOMS {
+        for d in SUPPLY_DENOMS {
             if let Ok(s) = self.app.wrap().query_supply(d) {
                 if !s.amount.is_zero() {
                     supply.insert(d.to_string(), s.amount.u128());
